@@ -35,14 +35,23 @@ Ltac fin := first [reflexivity | lia | (f_equal; lia) | (repeat f_equal; lia)].
 
 (* ------------------------------------------------------------------ address.go *)
 
+(* [s64_noop]: every signed 64-bit wrap in the goal whose argument is provably in range is the
+   identity.  Innermost first (an argument that still contains a wrap is skipped), so the proofs
+   do not depend on the order of operands or on the names of Go locals. *)
+Lemma wrap_s64_id : forall z, -9223372036854775808 <= z < 9223372036854775808 -> wrap_s64 z = z.
+Proof. intros z H. unfold wrap_s64. cbv zeta. destruct (_ <? _) eqn:E; lia. Qed.
+Ltac no_wrap_in e := lazymatch e with context [wrap_s64 _] => fail | _ => idtac end.
+Ltac s64_noop :=
+  repeat match goal with
+         | |- context [wrap_s64 ?e] => no_wrap_in e; rewrite (wrap_s64_id e) by nia
+         end.
+Ltac ok_pair_fin := cbv zeta; split_ifs; try lia; [reflexivity | f_equal; unwrap; lia].
+
 Theorem go_addSize_agrees : forall a sz, in_u32 a -> in_u32 sz ->
   go_addSize a sz = ok_pair 4294967295 (addSize a sz).
 Proof.
   intros a sz Ha Hsz. unranges. unfold go_addSize, addSize, ok_pair, maxSegmentSize.
-  assert (Hx : wrap_s64 (a + sz) = a + sz) by (unwrap; split_ifs; lia).
-  rewrite Hx. cbv zeta. split_ifs; try lia.
-  - reflexivity.
-  - f_equal. unwrap. lia.
+  s64_noop. replace (sz + a) with (a + sz) by lia. ok_pair_fin.
 Qed.
 
 Theorem go_addSizeUnchecked_agrees : forall a sz, go_addSizeUnchecked a sz = addSizeUnchecked a sz.
@@ -53,12 +62,9 @@ Theorem go_element_agrees : forall a i sz, in_u32 a -> in_s32 i -> in_u32 sz ->
 Proof.
   intros a i sz Ha Hi Hsz. unranges. unfold go_element, element, ok_pair, maxSegmentSize.
   assert (Hm : -9223372034707292160 <= i * sz <= 9223372030412324865) by nia.
-  assert (Hy : wrap_s64 (i * sz) = i * sz) by (unwrap; split_ifs; lia).
-  rewrite Hy.
-  assert (Hx : wrap_s64 (a + i * sz) = a + i * sz) by (unwrap; split_ifs; lia).
-  rewrite Hx. cbv zeta. split_ifs; try lia.
-  - reflexivity.
-  - f_equal. unwrap. lia.
+  assert (Hm' : sz * i = i * sz) by lia.
+  rewrite ?Hm'. s64_noop. rewrite ?Hm'. s64_noop.
+  replace (i * sz + a) with (a + i * sz) by lia. ok_pair_fin.
 Qed.
 
 Theorem go_addOffset_agrees : forall a o, go_addOffset a o = addOffset a o.
@@ -69,10 +75,8 @@ Theorem go_times_agrees : forall sz n, in_u32 sz -> in_s32 n ->
 Proof.
   intros sz n Hsz Hn. unranges. unfold go_times, times, ok_pair, maxSegmentSize.
   assert (Hm : -9223372036854775808 <= sz * n < 9223372036854775808) by nia.
-  assert (Hx : wrap_s64 (sz * n) = sz * n) by (unwrap; split_ifs; lia).
-  rewrite Hx. cbv zeta. split_ifs; try lia.
-  - reflexivity.
-  - f_equal. unwrap. lia.
+  assert (Hm' : n * sz = sz * n) by lia.
+  rewrite ?Hm'. s64_noop. ok_pair_fin.
 Qed.
 
 Theorem go_timesUnchecked_agrees : forall sz n, go_timesUnchecked sz n = timesUnchecked sz n.
